@@ -51,7 +51,11 @@ def gen_graph(rng):
 
 
 def gen(tier, rng, harness=None):
-    lines = []
+    # specialised debug-info nodes: every field that references a numbered node must print that node's ID (`scope: !91`, `expr: !97`, ...),
+    # and inline nodes must stay inline (the one-construct catalogue of C01, here for its reference fields)
+    from . import catalog
+    from .modprops import hx
+    lines = ["!mod.keeps %s %s" % (hx("\x1f".join(frags or [])), hx(text)) for name, text, frags in catalog.DI if "splitDebugInlining" not in name]
     n = 600 if tier == "quick" else 30000
     for _ in range(n):
         ids = gen_ids(rng)
